@@ -52,7 +52,7 @@ Print Assumptions c02_no_placeholder.
 Theorem c02_no_crash : forall f c l,
   (fix_f03 f = true \/ forall x, In x l -> w_from (i_wire x) <> None) ->
   crashed (run f c l) = false /\
-  forall r, In r (run f c l) -> r <> RStep [] SRecovered /\ forall ds, r <> RStep ds SRecovered.
+  forall r, In r (run f c l) -> forall ds, r <> RStep ds SRecovered.
 Proof. exact no_crash. Qed.
 Print Assumptions c02_no_crash.
 
@@ -76,33 +76,33 @@ Print Assumptions c02_nosender_refuted.
    of a non-aggregated registered type whose sender token names a node of the
    tree, arriving from that node's server (or injected locally), is handed over
    at once, alone, unchanged, with the node Tree.Search finds. *)
-Theorem c02_valid_delivered : forall f ns me r q m id pos x k,
+Theorem c02_valid_delivered : forall f f3 ns me r q m id pos x k,
   p_from m = Some id -> search ns id = Some (pos, x) ->
   (p_peer m = PNone \/ p_peer m = PKey (n_srv x)) ->
   lookup r (p_type m) = Some (k, false) ->
-  step f ns me r q m =
+  step f f3 ns me r q m =
     (q, ([{| d_type := p_type m; d_kind := k; d_agg := false; d_batch := [EMsg pos m] |}], SOk)).
 Proof. exact valid_single_delivered. Qed.
 Print Assumptions c02_valid_delivered.
 
 (* A member claiming to be another member is refused, by both variants. *)
-Theorem c02_spoof_rejected : forall f ns me r q m id pos x k0 k agg,
+Theorem c02_spoof_rejected : forall f f3 ns me r q m id pos x k0 k agg,
   p_from m = Some id -> search ns id = Some (pos, x) -> p_peer m = PKey k0 -> k0 <> n_srv x ->
   lookup r (p_type m) = Some (k, agg) -> agg = false ->
-  step f ns me r q m = (q, ([], SErr)).
+  step f f3 ns me r q m = (q, ([], SErr)).
 Proof. exact spoof_rejected. Qed.
 Print Assumptions c02_spoof_rejected.
 
 (* What is NOT claimed: a message injected inside the process (no envelope
    identity) is not authenticated; it is delivered iff the named node exists
    (and, in the pinned variant, as a placeholder when it does not). *)
-Theorem c02_local_injection : forall f ns me r q m id k,
+Theorem c02_local_injection : forall f f3 ns me r q m id k,
   p_peer m = PNone -> p_from m = Some id -> lookup r (p_type m) = Some (k, false) ->
   (forall pos x, search ns id = Some (pos, x) ->
-     step f ns me r q m =
+     step f f3 ns me r q m =
        (q, ([{| d_type := p_type m; d_kind := k; d_agg := false; d_batch := [EMsg pos m] |}], SOk))) /\
   (search ns id = None ->
-     step f ns me r q m =
+     step f f3 ns me r q m =
        (q, if f then ([], SErr)
            else ([{| d_type := p_type m; d_kind := k; d_agg := false; d_batch := [EZero] |}], SOk))).
 Proof. exact local_injection. Qed.
@@ -122,11 +122,7 @@ Theorem c02_search_spec : forall l id p x,
   search l id = Some (p, x) ->
   nth_error l p = Some x /\ n_id x = id /\
   forall k y, nth_error l k = Some y -> n_id y = id -> k <= p.
-Proof.
-  exact (fun l id p x H =>
-    conj (proj1 (search_sound l id p x H))
-      (conj (proj2 (search_sound l id p x H)) (fun k y => search_last l id p x k y H))).
-Qed.
+Proof. exact search_spec. Qed.
 Print Assumptions c02_search_spec.
 
 (* The checker run on every observation of the implementation returns no clause
@@ -153,6 +149,6 @@ Example c02_repaired_on_witnesses :
   let mk from := [{| i_inst := 0; i_env := PKey 1;
              i_wire := {| w_from := from; w_from_other_tree := false; w_si := None;
                           w_type := 1; w_payload := 42 |} |}] in
-  run repaired c (mk (Some 7)) = [RStep [] SErr] /\ run repaired c (mk None) = [RStep [] SRefused].
+  run repaired c (mk (Some 7)) = [RStep [] SErr] /\ run repaired c (mk None) = [RStep [] SErr].
 Proof. exact repaired_on_witnesses. Qed.
 Print Assumptions c02_repaired_on_witnesses.
